@@ -355,6 +355,9 @@ def check_case(case):
         close_worlds()
 
 
+LAYOUTS = ((False, None), (True, None), (True, "crlf"))
+
+
 def explore_big(acc, shard):
     """Large files (about 70 KB and 1.1 MB): a reduced fault enumeration, the clauses are the same."""
     _, fsname, ext, enc, variant = shard
@@ -405,12 +408,15 @@ def explore_big(acc, shard):
 def explore_shard(acc, shard):
     if shard[0] == "big":
         return explore_big(acc, shard)
-    _, fsname, ext, enc, maxlen = shard
+    _, fsname, ext, enc, maxlen = shard[:5]
+    only_layout = shard[5] if len(shard) > 5 else None
     layer = f"{fsname} {ext} {enc}"
     try:
         scripts = [()] + [(e,) for e in MU.EDITS] + [tuple(s) for n in range(2, maxlen + 1) for s in itertools.product(MU.EDITS[:4], repeat=n)]
         case = None
-        for with_chart, variant in ((False, None), (True, None), (True, "crlf")):
+        for li, (with_chart, variant) in enumerate(LAYOUTS):
+            if only_layout is not None and li != only_layout:
+                continue
             if variant == "crlf" and fsname != "mem":
                 continue
             for output in (False, True, "same", "respelled"):
@@ -491,7 +497,10 @@ def explore(run_):
     for fsname in ("mem", "nat"):
         for ext in (".sm", ".ssc"):
             for enc in MU.ENCODINGS:
-                shards.append(("F", fsname, ext, enc, maxlen if (fsname == "mem" or run_.thorough()) else 1))
+                for li in range(len(LAYOUTS)):
+                    if LAYOUTS[li][1] == "crlf" and fsname != "mem":
+                        continue
+                    shards.append(("F", fsname, ext, enc, maxlen if (fsname == "mem" or run_.thorough()) else 1, li))
     for fsname in ("mem", "nat"):
         for ext in (".sm", ".ssc"):
             for enc in (("utf-8", "cp1252", "cp932") if run_.thorough() else ("cp1252",)):
